@@ -16,7 +16,7 @@ RULE = ('enumerated part: for every bounded type (Number, Integer, Magnitude, Da
         'CalendarDateRange) x bounds in {none, lower, upper, both} x every inclusivity pair x allow_None, the full boundary '
         'set {lo-eps, lo, lo+eps, hi-eps, hi, hi+eps, nan, +-inf, None, bool} through all routes (class creation, '
         'constructor, instance attribute, class attribute, param.update, deserialize->constructor); random part: random '
-        'configurations of all 23 types (regex, length, item type, objects list/dict, check_on_set, class_, is_instance) x '
+        'configurations of 25 types (regex, length, item type, objects list/dict, check_on_set, class_, is_instance) x '
         'hostile candidate pool; the configuration reaches the Parameter directly, through a subclass that redeclares the '
         'parameter without restating it, or by assigning one Parameter attribute after declaration. Each attempt outcome (installed / ValueError|TypeError) must equal the predicate, the '
         'read-back must be the assigned object and a rejection must leave the old value. non-trivial = candidate is a '
@@ -178,7 +178,7 @@ class DummySub(Dummy):
 def random_config(rng):
     t = rng.choice(['Parameter', 'String', 'Bytes', 'Boolean', 'Number', 'Integer', 'Magnitude', 'Date', 'CalendarDate', 'Tuple',
                     'NumericTuple', 'XYCoordinates', 'Range', 'DateRange', 'CalendarDateRange', 'List', 'HookList', 'Dict',
-                    'Callable', 'Color', 'Selector', 'ListSelector', 'ClassSelector'])
+                    'Callable', 'Color', 'Selector', 'ListSelector', 'ClassSelector', 'Event', 'Action'])
     cfg = dict(allow_None=rng.random() < 0.4)
     if rng.random() < 0.2:
         cfg['constant'] = True      # constants are still validated on the routes that may set them
@@ -250,8 +250,10 @@ def a_valid_default(t, cfg):
             if spec.accepts(t, cfg, c) == spec.ACCEPT:
                 return c
         return None
-    if t == 'Boolean':
+    if t in ('Boolean', 'Event'):
         return False
+    if t == 'Action':
+        return len
     if t in ('Number', 'Integer', 'Magnitude'):
         for c in [0, 1, 0.5 if t != 'Integer' else 2, 3, -2, 5, 7, 2]:
             if spec.accepts(t, cfg, c) == spec.ACCEPT:
@@ -473,6 +475,8 @@ def run_case(idx, rng, P, rep):
                 got = holder.p if route != 'deser' else holder.p
                 if route == 'deser':
                     ok = type(got) is type(v) and (got == v or (got != got and v != v))
+                elif t == 'Event' and route != 'create':
+                    ok = got is False or got is v       # an Event resets itself to False once its watchers have run
                 else:
                     ok = got is v
                 if not ok:
